@@ -434,7 +434,7 @@ fn run_generic<const N: usize>(c: &ACase) -> Result<u64, String> {
     Ok(nontrivial)
 }
 
-pub const ACAPS: [usize; 16] = [0, 1, 2, 3, 4, 5, 6, 8, 16, 33, 64, 65, 100, 128, 129, 1000];
+pub const ACAPS: [usize; 19] = [0, 1, 2, 3, 4, 5, 6, 8, 16, 33, 64, 65, 100, 128, 129, 1000, 1025, 4096, 20000];
 
 pub fn run_acase(c: &ACase) -> Result<u64, String> {
     match c.n {
@@ -454,6 +454,9 @@ pub fn run_acase(c: &ACase) -> Result<u64, String> {
         128 => run_generic::<128>(c),
         129 => run_generic::<129>(c),
         1000 => run_generic::<1000>(c),
+        1025 => run_generic::<1025>(c),
+        4096 => run_generic::<4096>(c),
+        20000 => run_generic::<20000>(c),
         n => Err(format!("capacity {n} not in table")),
     }
 }
